@@ -42,7 +42,7 @@ VER = STRUCT + ["IxRunInv", "ConsumeInv", "GetInv", "ScanInv", "StatInv"]
 cfg("seg_versions_q", VER, ["NextMonotone", "VersionRules", "MigrateRules", "ReadOnlyRules"], MaxOff=5, Versions="{1, 2}", OptKeep="TF", OptEager="TF",
     AllowMigrate="TRUE", AllowRO="TRUE")
 cfg("seg_versions_t", VER, ["NextMonotone", "VersionRules", "MigrateRules", "ReadOnlyRules"], MaxOff=6, Versions="{1, 2}", OptKeep="TF", OptEager="TF",
-    AllowMigrate="TRUE", AllowRO="TRUE", AllowRmIndex="TRUE", TimeSet="{1, 2}", TimeIndex="TRUE")
+    AllowMigrate="TRUE", AllowRO="TRUE")
 # keys: C09
 cfg("seg_keys_q", STRUCT + ["GetByKeyInv", "ConsumeByKeyInv"], KeySet="mcKeys3", VLens="{0, 4}", MaxOff=4, KeyIndex="TRUE", Rollovers="{60, 1000}")
 cfg("seg_keys_t", STRUCT + ["GetByKeyInv", "ConsumeByKeyInv"], KeySet="mcKeys3", VLens="{0, 4}", MaxOff=5, KeyIndex="TRUE", Rollovers="{60, 1000}", AllowRO="TRUE")
